@@ -62,6 +62,8 @@ type Env struct {
 	ZK         *ZK
 	Dials      []*DialRec
 	DialFaults map[int]string // dial ordinal (1-based) -> error text
+	DialDelay  time.Duration  // every dial takes this long (and honours its context)
+	Stall      map[int]int    // server index -> window in bytes: the server does not read; writes block once the window is full
 
 	// counters usable as fault triggers
 	NExec, NFrames, NDeliver, NDials int
@@ -90,6 +92,7 @@ type Env struct {
 	QuietLog   []string
 	Stabilized bool
 	frozen     atomic.Bool
+	frozenCh   chan struct{} // closed at teardown: every wait of the simulated network ends
 }
 
 // Stats are per-run reach counters.
@@ -103,7 +106,7 @@ type Stats struct {
 
 func NewEnv(seed uint64, c *hb.Cluster) *Env {
 	e := &Env{Seed: seed, Rng: rng.New(rng.Derive(seed, 1)), C: c, Knobs: DefaultKnobs(), digest: sha256.New(),
-		DialFaults: map[int]string{}}
+		DialFaults: map[int]string{}, Stall: map[int]int{}, frozenCh: make(chan struct{})}
 	e.Stats.FaultKinds = map[string]int{}
 	e.Stats.Probes = map[string]int{}
 	e.ZK = &ZK{env: e}
